@@ -185,6 +185,8 @@ class MemioEngine(object):
         self.begin("alloc", "sdram_alloc_as_filelike(%d,tag=%d,%r,app=%d,"
                    "clear=%r)" % (size, tag, xy, app, clear), "any")
         fail = self.inject_alloc_fail = (not heal and t.chance(0.08))
+        if fail:
+            w.fault("alloc_failure_injected")
         status, val = rigcall(
             w, (c.scp.TimeoutError, c.mcmod.SpiNNakerMemoryError),
             c.mc.sdram_alloc_as_filelike, size, tag, xy[0], xy[1], app, clear)
@@ -581,6 +583,7 @@ class MemioEngine(object):
             if not (v.root.freed or v.closed):
                 w.violate("F", "close() of an open view raised", kind="close")
         v.closed = True
+        w.fault("close_at_arbitrary_point")
         if not v.obj.closed and not v.root.freed:
             w.violate("F", "view not marked closed after close()",
                       kind="close")
@@ -601,6 +604,7 @@ class MemioEngine(object):
             self.end("TimeoutError")
             return
         rootv.root.freed = True
+        w.fault("free_at_arbitrary_point")
         self.resync_tags(rootv.xy)
         if self.m.chips[rootv.xy].sdram.find(rootv.root.ptr) is not None:
             w.violate("A", "free() returned but block %#x is still allocated"
